@@ -70,6 +70,16 @@ def coq_bytes(bs):
     return "[" + ";".join(str(int(b)) for b in bs) + "]"
 
 
+def coq_packed(bs):
+    """bytes -> Coq term of type Base.Bytes.packed (7 bytes per primitive int literal); decode in
+    Coq with [unpack]. Requires `From Coq Require Import Uint63.` in the case file."""
+    bs = bytes(bs)
+    words = []
+    for i in range(0, len(bs), 7):
+        words.append(str(int.from_bytes(bs[i:i + 7], "little")))
+    return "(%d%%nat, [%s]%%uint63)" % (len(bs), ";".join(words))
+
+
 def coq_string(s):
     """Coq string literal for printable ASCII; other bytes must be passed as byte lists instead."""
     out = ['"']
